@@ -55,17 +55,25 @@ fn history<T: Modeled + Encode + Clone + EncodeLike<T>>(ctx: &mut Ctx, name: &st
 		let item_bytes: Vec<u8> = items.iter().flat_map(|i| i.encode()).collect();
 		let input = enc.clone();
 		let by_ref = rng.chance(1, 2);
+		// the buffer handed in: exact fit, or with spare capacity (as it comes back from an earlier
+		// append, or from `with_capacity`) - little, or enough for everything appended
+		let spare = *rng.pick(&[0usize, 0, 1, 2, 3, 64, 1 << 17]);
+		let hand_in = || {
+			let mut v = Vec::with_capacity(input.len() + spare);
+			v.extend_from_slice(&input);
+			v
+		};
 		let r = catch_unwind(AssertUnwindSafe(|| {
 			if deque {
 				if by_ref {
-					<VecDeque<T> as EncodeAppend>::append_or_new(input.clone(), items.iter())
+					<VecDeque<T> as EncodeAppend>::append_or_new(hand_in(), items.iter())
 				} else {
-					<VecDeque<T> as EncodeAppend>::append_or_new(input.clone(), items.clone())
+					<VecDeque<T> as EncodeAppend>::append_or_new(hand_in(), items.clone())
 				}
 			} else if by_ref {
-				<Vec<T> as EncodeAppend>::append_or_new(input.clone(), items.iter())
+				<Vec<T> as EncodeAppend>::append_or_new(hand_in(), items.iter())
 			} else {
-				<Vec<T> as EncodeAppend>::append_or_new(input.clone(), items.clone())
+				<Vec<T> as EncodeAppend>::append_or_new(hand_in(), items.clone())
 			}
 		}));
 		let (ans, out) = answer(r);
@@ -136,7 +144,10 @@ pub fn append_stream(ctx: &mut Ctx) {
 			if add == 0 {
 				continue;
 			}
-			history::<u8>(ctx, "u8", &mut rng, i % 2 == 1, start, &[add]);
+			for _ in 0..3 {
+				history::<u8>(ctx, "u8", &mut rng, i % 2 == 1, start, &[add]);
+			}
+			history::<u16>(ctx, "u16", &mut rng, i % 2 == 0, start, &[add]);
 			history::<crate::derived::Marker>(ctx, "Marker", &mut rng, i % 2 == 0, start, &[add, 1]);
 			history::<u32>(ctx, "u32", &mut rng, false, start, &[3, add]);
 		}
@@ -208,6 +219,52 @@ pub fn append_stream(ctx: &mut Ctx) {
 			let valid = <Compact<u32> as parity_scale_codec::Decode>::decode(&mut &inp[..]).is_ok();
 			if !valid && ans != "err" {
 				ctx.oracle_fail("C15", format!("append_or_new accepted input {} that does not begin with a valid count: {}", hex(&inp), ans));
+			}
+		}
+	}
+	// NOTHING appended: the buffer is still checked (and an empty one becomes `[0]`)
+	for input in [
+		vec![], vec![0u8], vec![0x04, 7], vec![0x01], vec![0x01, 0x00], vec![0x01, 0x00, 2, 3], vec![0x02, 0, 0], vec![0x02, 0, 0, 0], vec![0x03, 0, 0, 0, 0x3f], vec![0x03, 0, 0, 0, 0x40, 9],
+		vec![0x07, 0, 0, 0, 0x40, 0], vec![0x0b, 0, 0, 0, 0, 1], vec![0x13, 0, 0, 0, 0, 0, 0, 0, 1], vec![0xff], vec![0xfd, 0xff], vec![0x05, 0x01, 9, 9],
+	] {
+		let none_u8: Vec<u8> = vec![];
+		let r1 = catch_unwind(AssertUnwindSafe(|| <Vec<u8> as EncodeAppend>::append_or_new(input.clone(), none_u8.clone())));
+		let r2 = catch_unwind(AssertUnwindSafe(|| <VecDeque<u32> as EncodeAppend>::append_or_new(input.clone(), Vec::<u32>::new().iter())));
+		let r3 = catch_unwind(AssertUnwindSafe(|| <Vec<()> as EncodeAppend>::append_or_new(input.clone(), Claimed { inner: std::iter::empty::<()>(), claimed: 0 })));
+		for (label, r) in [("Vec<u8>", r1), ("VecDeque<u32>", r2), ("Vec<()>", r3)] {
+			let (ans, out) = answer(r);
+			ctx.emit("append-nothing", label, &format!("appendn {} 0 -", hex_or_dash(&input)), &ans);
+			let valid = input.is_empty() || <Compact<u32> as parity_scale_codec::Decode>::decode(&mut &input[..]).is_ok();
+			if !valid && ans != "err" {
+				ctx.oracle_fail("C15", format!("{}::append_or_new of no items accepted input {} that does not begin with a valid count: {}", label, hex(&input), ans));
+			}
+			if valid {
+				let expect = if input.is_empty() { vec![0u8] } else { input.clone() };
+				if out.as_deref() != Some(&expect[..]) {
+					ctx.oracle_fail("C15", format!("{}::append_or_new of no items to {} gives {} (expected the same sequence)", label, hex_or_dash(&input), ans));
+				}
+			}
+		}
+	}
+	// lazy iterators announcing counts that cannot be represented, over items that are NOT zero-sized:
+	// an error, never a panic or an attempt to reserve room for them
+	for &claimed in &[(1usize << 32) - 1, 1 << 32, (1 << 32) + 5, 1 << 40, usize::MAX / 16, usize::MAX / 8 + 1, usize::MAX / 2 + 1, usize::MAX - 1, usize::MAX] {
+		let input = vec![3u8, 4, 5].encode();
+		let r1 = catch_unwind(AssertUnwindSafe(|| <Vec<u8> as EncodeAppend>::append_or_new(input.clone(), Claimed { inner: [6u8, 7].into_iter(), claimed })));
+		let in2 = vec![1u64, 2].encode();
+		let r2 = catch_unwind(AssertUnwindSafe(|| <VecDeque<u64> as EncodeAppend>::append_or_new(in2.clone(), Claimed { inner: [8u64].into_iter(), claimed })));
+		let in3 = vec![(1u16, Some(2u32))].encode();
+		let r3 = catch_unwind(AssertUnwindSafe(|| <Vec<(u16, Option<u32>)> as EncodeAppend>::append_or_new(in3.clone(), Claimed { inner: std::iter::empty::<(u16, Option<u32>)>(), claimed })));
+		let r4 = catch_unwind(AssertUnwindSafe(|| <Vec<String> as EncodeAppend>::append_or_new(vec![], Claimed { inner: std::iter::empty::<String>(), claimed })));
+		for (label, inp, items, r) in [("Vec<u8>", input.clone(), vec![6u8, 7], r1), ("VecDeque<u64>", in2.clone(), 8u64.encode(), r2), ("Vec<(u16,Option<u32>)>", in3.clone(), vec![], r3), ("Vec<String>", vec![], vec![], r4)] {
+			let (ans, _) = answer(r);
+			ctx.emit("append-forged", label, &format!("appendn {} {} {}", hex_or_dash(&inp), claimed, hex_or_dash(&items)), &ans);
+			let n = if inp.is_empty() { 0u128 } else { <Compact<u32> as parity_scale_codec::Decode>::decode(&mut &inp[..]).map(|c| c.0 as u128).unwrap_or(0) };
+			if n + claimed as u128 > u32::MAX as u128 && ans != "err" {
+				ctx.oracle_fail("C15", format!("{}::append_or_new with an iterator announcing {} items: {} (expected an error)", label, claimed, ans));
+			}
+			if ans == "panic" {
+				ctx.oracle_fail("C15", format!("{}::append_or_new with an iterator announcing {} items panicked", label, claimed));
 			}
 		}
 	}
